@@ -44,7 +44,12 @@ Layouts == {SqL("i64", <<2, 2>>, <<"b", "hi2", "a", "z">>, "F"), SqL("i64", <<2,
             SqL("i64", <<1, 2>>, <<"b", "hi2">>, "S")}
 NonAscii == {Sc("str", "u"), Sq("list", "str", <<2>>, <<"u", "a">>), Sq("nd", "str", <<2>>, <<"a", "u">>),
              Dc("float", <<<<"u", "a">>>>)}
+\* text whose white space is part of the value: trailing blanks, a single blank, a trailing newline, a tab, leading blanks,
+\* the empty string -- as scalars and inside fixed-shape arrays of strings
+Blanks == {Sc("str", "t"), Sc("str", "sp"), Sc("str", "nl"), Sc("str", "tab"), Sc("str", "ld"), Sc("str", "e"),
+           Sq("list", "str", <<2>>, <<"t", "sp">>), Sq("nd", "str", <<2, 2>>, <<"t", "a", "tab", "e">>)}
 Full == {NoneE} \cup PyScalars \cup NpScalars \cup Lists \cup Tuples \cup Arrays \cup Dicts \cup Special \cup Layouts \cup NonAscii
+        \cup Blanks
 
 \* representatives of every mechanism for the longer collections
 Mid == {NoneE, Sc("int", "b"), Sc("float", "a"), Sc("float", "nan"), Sc("float", "pinf"), Sc("bool", "a"), Sc("str", "a"),
@@ -62,7 +67,8 @@ Small == {NoneE, Sc("int", "b"), Sc("float", "a"), Sc("u8", "lo2"), Sc("str", "a
 \* thorough, three entries: everything except the middle integer widths (i16/i32/u16/u32 behave as i8/u8 in pairs already)
 Large == Full \ ((Special \ SpecialCore) \cup {SqL("i64", <<1, 2>>, <<"b", "hi2">>, "S"), Sq("nd", "str", <<2>>, <<"a", "u">>),
                                                  SqL("f64", <<2, 3>>, <<"a", "b", "pinf", "nz", "fmax", "a">>, "T"),
-                                                 Dc("float", <<<<"u", "a">>>>)}
+                                                 Dc("float", <<<<"u", "a">>>>), Sc("str", "nl"), Sc("str", "tab"), Sc("str", "ld"),
+                                                 Sc("str", "e"), Sq("list", "str", <<2>>, <<"t", "sp">>)}
                  \cup {Sc(k, v) : k \in {"i16", "i32", "u16", "u32"}, v \in {"hi2", "lo2", "b"}}
                  \cup {Sc("float", "b"), Sc("bool", "b"), Sc("str", "b"), Sc("i64", "b"), Sc("u64", "b"), Sc("i8", "b"),
                        Sq("list", "int", <<3>>, <<"b", "hi2", "b">>), Sq("nd", "f64", <<3>>, <<"b", "a", "b">>),
